@@ -616,6 +616,12 @@ def run(ctx):
             parts.append({"n": n, "lo": lo, "hi": min(total, lo + step)})
     agg = Agg()
     nproc = int(os.environ.get("VERIF_NPROC", "0")) or min(16 if thorough else 8, os.cpu_count() or 1)
+    # debugging aid: VERIF_C15_ONLY=G | M | M:<substring of a block name>; such a run is reported as not exhaustive
+    only = os.environ.get("VERIF_C15_ONLY", "")
+    if only:
+        ctx.cap_hit(f"partial run requested by VERIF_C15_ONLY={only}")
+    if only and not only.startswith("G"):
+        parts = parts[:1]
     run_forked(ctx, agg, [(f"graphs n={p['n']} [{p['lo']},{p['hi']})", run_graph_part, p) for p in parts], nproc, 800)
     ctx.bound["G_atoms_max"] = nmax
     ctx.bound["G_graphs"] = sum(1 << len(pairs(n)) for n in range(1, nmax + 1))
@@ -662,6 +668,10 @@ def run(ctx):
     for bt in ("Double", "Aromatic"):
         blocks.append((f"class-representative targets <={dbl_T[-1][0]} x class-representative patterns <=3 [all three entry points, bonds={bt}]", dbl_T, cat(P_can, range(1, 4)), bt, ("match", "get_substr_indices", "ens.get_substr_indices")))
 
+    if only.startswith("G"):
+        blocks = blocks[-1:]
+    elif only.startswith("M:"):
+        blocks = [b for b in blocks if only[2:] in b[0]]
     parts = []
     sizes = {}
     for name, tg, pt, bt, apis in blocks:
